@@ -1573,24 +1573,36 @@ func (s *lvalByFun) Swap(i, j int) {
 	s.cells[i], s.cells[j] = s.cells[j], s.cells[i]
 }
 
+// callOrdering applies the ordering predicate less to a and b, each passed
+// through key first when key is not nil.
+//
+// The functions are CALLED with the elements as arguments; they are not
+// spliced into a form that is then evaluated.  An element is a value -- a
+// symbol or a list out of quoted data as much as a number -- and evaluating a
+// form built around it would evaluate the element a second time: a symbol
+// would be looked up and a list would be called.  The elements are copied, as
+// they always were, so the predicate is not handed the sequence's own cells.
+func callOrdering(env *LEnv, less, key, a, b *LVal) *LVal {
+	a, b = a.Copy(), b.Copy()
+	if key != nil {
+		a = env.FunCall(key, SExpr([]*LVal{a}))
+		if a.Type == LError {
+			return a
+		}
+		b = env.FunCall(key, SExpr([]*LVal{b}))
+		if b.Type == LError {
+			return b
+		}
+	}
+	return env.FunCall(less, SExpr([]*LVal{a, b}))
+}
+
 func (s *lvalByFun) Less(i, j int) bool {
 	if s.err != nil {
 		return false
 	}
 	a, b := s.cells[i], s.cells[j]
-	// Functions are always copied when being invoked. But the arguments
-	// are not copied in general.
-	var expr *LVal
-	if s.keyfun == nil {
-		expr = SExpr([]*LVal{s.fun, a.Copy(), b.Copy()})
-	} else {
-		expr = SExpr([]*LVal{
-			s.fun,
-			SExpr([]*LVal{s.keyfun, a.Copy()}),
-			SExpr([]*LVal{s.keyfun, b.Copy()}),
-		})
-	}
-	ok := s.env.Eval(expr)
+	ok := callOrdering(s.env, s.fun, s.keyfun, a, b)
 	if ok.Type == LError {
 		s.err = ok
 		return false
@@ -1659,23 +1671,7 @@ func builtinInsertSorted(env *LEnv, args *LVal) *LVal {
 	sortErr := Nil()
 	inCells := seqCells(list)
 	i := sort.Search(len(inCells), func(i int) bool {
-		var expr *LVal
-		if keyFun == nil {
-			expr = SExpr([]*LVal{p, item.Copy(), inCells[i].Copy()})
-		} else {
-			expr = SExpr([]*LVal{
-				p,
-				SExpr([]*LVal{
-					keyFun,
-					item.Copy(),
-				}),
-				SExpr([]*LVal{
-					keyFun,
-					inCells[i].Copy(),
-				}),
-			})
-		}
-		ok := env.Eval(expr)
+		ok := callOrdering(env, p, keyFun, item, inCells[i])
 		if ok.Type == LError {
 			sortErr = ok
 			return false
@@ -2491,8 +2487,7 @@ func builtinAllP(env *LEnv, args *LVal) *LVal {
 		return env.Errorf("second argument is not a proper sequence: %v", list.Type)
 	}
 	for _, v := range seqCells(list) {
-		expr := SExpr([]*LVal{pred, v})
-		ok := env.Eval(expr)
+		ok := env.FunCall(pred, SExpr([]*LVal{v}))
 		if ok.Type == LError {
 			return ok
 		}
@@ -2516,8 +2511,7 @@ func builtinAnyP(env *LEnv, args *LVal) *LVal {
 		return env.Errorf("second argument is not a list: %v", list.Type)
 	}
 	for _, v := range seqCells(list) {
-		expr := SExpr([]*LVal{pred, v})
-		ok := env.Eval(expr)
+		ok := env.FunCall(pred, SExpr([]*LVal{v}))
 		if ok.Type == LError {
 			return ok
 		}
